@@ -183,6 +183,20 @@ Theorem C08_noise_gram_partial :
 Proof. exact noise_gram_partial. Qed.
 Print Assumptions C08_noise_gram_partial.
 
+(** ... made explicit: under the laws of the exact exponential Qd(0) = 0, and positive
+    semidefiniteness of Qd on ONE step h is inherited by every multiple k h of it (any k), so the
+    missing analytic fact is needed only on an arbitrarily short initial interval. *)
+Theorem C08_noise_psd_from_short_step_partial :
+  forall (F : realFieldType) (n : nat) (expm : 'M[F]_(n + n) -> 'M[F]_(n + n)) (A Q : 'M[F]_n),
+  vl_exp_laws (fun t : F => expm (t *: vl_mx A Q)) ->
+  (cpm_ret1 expm A Q 0 = 0) /\
+  (forall (h : F) (k : nat), psd (cpm_ret1 expm A Q h) -> psd (cpm_ret1 expm A Q (k%:R * h))).
+Proof.
+move=> F n expm A Q laws; split;
+  [exact: noise_zero_under_laws | move=> h k; exact: noise_psd_multiples].
+Qed.
+Print Assumptions C08_noise_psd_from_short_step_partial.
+
 (** PARTIAL.  Positive semidefiniteness of the returned noise matrix is proved only for the
     exact zero-dynamics instance.  NOT PROVED (no analysis is formalised):
       - for every F, every PSD Q and every dt >= 0 the limit of the series
